@@ -72,6 +72,11 @@ def nest(program: list[dict], gi: int, subset: list[str], rng: random.Random, wn
     if rename:
         # alpha-rename the inner graph's interface names; the wrapper renames them back (undone by the surrounding wiring)
         mp = {x: "in_" + x for x in list(iface_in) + sorted(out_names)}
+        if rename == "perm" and len(iface_in) >= 2:
+            # the inner graph knows its inputs under a ROTATION of the outer names; the wrapper undoes it in ONE parallel with_inputs call
+            # (a swap for two names, a cycle for more): each name must still meet its own default / binding / value
+            rot = iface_in[1:] + iface_in[:1]
+            mp.update({x: r for x, r in zip(iface_in, rot)})
         for n in inner_nodes:
             if n["kind"] == "graph":
                 n["inRen"] = [[o, mp.get(c, c)] for o, c in n.get("inRen", [])] + [[x, mp[x]] for x in [] ]
@@ -107,14 +112,14 @@ def nest(program: list[dict], gi: int, subset: list[str], rng: random.Random, wn
             #  nested form is a different program — the outside consumer would take its default — and the constructor rejects the mix)
             if k in iface_in and (k not in used_outside or (bind_shared and not outside_default(k))):
                 v = bound_outer.pop(k)
-                inner_bound.append([("in_" + k) if rename else k, v])
+                inner_bound.append([mp[k] if rename else k, v])
     if dup_bind:
         # the same name bound at both levels: the binding of the graph being run wins, exactly as flat.bind(k=decoy).bind(k=v) uses v
         for k, v in bound_outer.items():
             # (not when an outside consumer has its own signature default for the name: the constructor — which runs before bind() —
             #  sees "default outside, bound inside" and rejects the mix as inconsistent fallbacks, by design)
             if k in iface_in and not outside_default(k):
-                inner_bound.append([("in_" + k) if rename else k, v + 100 if isinstance(v, int) and not isinstance(v, bool) else 100])
+                inner_bound.append([mp[k] if rename else k, v + 100 if isinstance(v, int) and not isinstance(v, bool) else 100])
     inner = {"name": f"inner_{wname}", "nodes": inner_nodes, "bound": inner_bound}
     wrapper = {"name": wname, "kind": "graph", "inner": gi, "inRen": in_ren, "outRen": out_ren}
     new_outer = {"name": g["name"] + "_n", "nodes": outer_nodes + [wrapper], "bound": [[k, v] for k, v in bound_outer.items()]}
@@ -176,7 +181,7 @@ class C05(Prop):
                         sub = convex_subset(rng, nodes, seed_node=rng.choice(cs))
                         if any(c not in sub for c in cs) and len(sub) < len(nodes):
                             cuts.append(sub)
-                            nested = nest(nested, gi, sub, rng, f"w{d}", rename=rng.random() < 0.5, bind_inner=True, bind_shared=True)
+                            nested = nest(nested, gi, sub, rng, f"w{d}", rename=rng.choice([False, True, "perm"]), bind_inner=True, bind_shared=True)
                             continue
                 subset = convex_subset(rng, nodes)
                 for _ in range(8):      # prefer cuts crossed by edges in both directions
@@ -186,7 +191,7 @@ class C05(Prop):
                 if len(subset) == len(nodes) and d > 0:
                     break
                 cuts.append(subset)
-                nested = nest(nested, gi, subset, rng, f"w{d}", rename=rng.random() < 0.5, bind_inner=(mode := rng.choice(["none", "move", "move-shared", "dup", "dup"])) in ("move", "move-shared"), dup_bind=mode == "dup",
+                nested = nest(nested, gi, subset, rng, f"w{d}", rename=rng.choice([False, True, "perm"]), bind_inner=(mode := rng.choice(["none", "move", "move-shared", "dup", "dup"])) in ("move", "move-shared"), dup_bind=mode == "dup",
                               bind_shared=mode == "move-shared")
                 # next level: nest inside the inner graph just created (index gi stays the inner graph)
             for runner in ("sync", "async"):
